@@ -53,7 +53,7 @@ Definition strip_bom (data : bytes) (enc : option bytes) : bytes :=
   | None => data
   | Some e =>
       match assoc_get beq (canonical_or_same e) GenText.boms with
-      | Some (b0 :: _ as bs) => if existsb (fun b => bstarts b data) bs then skipn (length b0) data else data
+      | Some ((b0 :: _) as bs) => if existsb (fun b => bstarts b data) bs then skipn (length b0) data else data
       | _ => data
       end
   end.
@@ -65,7 +65,9 @@ Definition py_encode (t : text) (enc : bytes) : res bytes :=
   | LUnmodelled => Err EUnmodelled
   | LOk _ c => match c_enc c t with Some b => Ok b | None => Err EUnicodeEncode end
   end.
+(* CPython short-circuits b''.decode(anything) to '' without looking the codec up *)
 Definition py_decode (b : bytes) (enc : bytes) : res text :=
+  if is_nil b then Ok [] else
   match lookup_codec enc with
   | LUnknown => Err ELookup
   | LUnmodelled => Err EUnmodelled
